@@ -73,6 +73,22 @@ const (
 	frameTypeMaxPushID   = frameType(0x0d)
 )
 
+// isUnknown reports whether ftype is a frame type not defined by RFC 9114.
+// Frames of unknown types are ignored wherever they appear.
+func (ftype frameType) isUnknown() bool {
+	switch ftype {
+	case frameTypeData,
+		frameTypeHeaders,
+		frameTypeCancelPush,
+		frameTypeSettings,
+		frameTypePushPromise,
+		frameTypeGoaway,
+		frameTypeMaxPushID:
+		return false
+	}
+	return true
+}
+
 func (ftype frameType) String() string {
 	switch ftype {
 	case frameTypeData:
